@@ -104,3 +104,132 @@ Proof.
   intros H. apply Accept_inj0 in H. subst n. apply N.eqb_eq in E0, E4. apply N.ltb_ge in E3.
   repeat split; try assumption.
 Qed.
+
+(* ---- CRC24Hash() as written (32-bit accumulator, table) = bit-serial CRC-24Q ---- *)
+Definition M24 : N := 16777215.
+
+Lemma lt_pow2_bits' x n : x < 2 ^ n <-> (forall k, n <= k -> N.testbit x k = false).
+Proof.
+  split.
+  - intros H k Hk. destruct x as [|p]; [apply N.bits_0|].
+    apply N.bits_above_log2. apply N.log2_lt_pow2 in H; lia.
+  - intros H. destruct x as [|p]; [apply N.neq_0_lt_0, N.pow_nonzero; discriminate|].
+    apply N.log2_lt_pow2; [lia|].
+    destruct (N.ltb_spec (N.log2 (N.pos p)) n) as [|Hge]; [assumption|].
+    specialize (H _ Hge). rewrite N.bit_log2 in H by discriminate. discriminate.
+Qed.
+
+Lemma poly_bits k : 25 <= k -> N.testbit crc24q_poly k = false.
+Proof. intros H. apply (proj1 (lt_pow2_bits' crc24q_poly 25)); [reflexivity|exact H]. Qed.
+
+Lemma q_step_bit_lt c : c < 2 ^ 24 -> q_step_bit c < 2 ^ 24.
+Proof.
+  intros H. rewrite lt_pow2_bits' in H. unfold q_step_bit.
+  destruct (N.testbit (N.shiftl c 1) 24) eqn:E; apply lt_pow2_bits'; intros k Hk.
+  - rewrite N.lxor_spec. destruct (N.eq_dec k 24) as [->|Hne].
+    + rewrite E. reflexivity.
+    + rewrite N.shiftl_spec_high' by lia. rewrite H by lia. rewrite poly_bits by lia. reflexivity.
+  - destruct (N.eq_dec k 24) as [->|Hne]; [exact E|].
+    rewrite N.shiftl_spec_high' by lia. apply H. lia.
+Qed.
+
+Lemma q_step8_lt c : c < 2 ^ 24 -> q_step8 c < 2 ^ 24.
+Proof. intros H. unfold q_step8. do 8 apply q_step_bit_lt. exact H. Qed.
+
+(* linearity in the low part: bits of z below 23 do not influence the reduction decision *)
+Lemma q_step_bit_lxor x z : N.testbit z 23 = false -> q_step_bit (N.lxor x z) = N.lxor (q_step_bit x) (N.shiftl z 1).
+Proof.
+  intros Hz. unfold q_step_bit. rewrite N.shiftl_lxor, N.lxor_spec.
+  assert (N.testbit (N.shiftl z 1) 24 = false) as -> by (rewrite N.shiftl_spec_high' by lia; exact Hz).
+  rewrite xorb_false_r. destruct (N.testbit (N.shiftl x 1) 24); [|reflexivity].
+  rewrite !N.lxor_assoc. f_equal. apply N.lxor_comm.
+Qed.
+
+Lemma testbit_shiftl_small lo k : lo < 2 ^ 16 -> k < 8 -> N.testbit (N.shiftl lo k) 23 = false.
+Proof.
+  intros H Hk. rewrite N.shiftl_spec_high' by lia. apply (proj1 (lt_pow2_bits' lo 16) H). lia.
+Qed.
+
+Lemma q_step8_split x lo : lo < 2 ^ 16 -> q_step8 (N.lxor x lo) = N.lxor (q_step8 x) (N.shiftl lo 8).
+Proof.
+  intros H. unfold q_step8.
+  assert (H0 : lo = N.shiftl lo 0) by (rewrite N.shiftl_0_r; reflexivity). rewrite H0 at 1.
+  do 8 (rewrite q_step_bit_lxor by (apply testbit_shiftl_small; [exact H|lia]); rewrite N.shiftl_shiftl; cbn [N.add Pos.add Pos.succ]).
+  reflexivity.
+Qed.
+
+Lemma q_lookup_spec i : i < 256 -> q_lookup i = q_step8 (N.shiftl i 16).
+Proof.
+  intros Hi. unfold q_lookup. rewrite crc24q_table_correct. unfold crc24q_table_computed, q_range256.
+  assert (Hn : (N.to_nat i < 256)%nat) by lia.
+  rewrite (nth_indep _ 0 (q_step8 (N.shiftl (N.of_nat 0) 16))) by (rewrite !map_length, seq_length; exact Hn).
+  rewrite map_map. rewrite (map_nth (fun x => q_step8 (N.shiftl (N.of_nat x) 16))).
+  rewrite seq_nth by exact Hn. cbn [Nat.add]. rewrite N2Nat.id. reflexivity.
+Qed.
+
+Lemma land_ones_lt x n : N.land x (N.ones n) < 2 ^ n.
+Proof. rewrite N.land_ones. apply N.mod_lt. apply N.pow_nonzero. discriminate. Qed.
+
+Lemma land_lxor_distr a b c : N.land (N.lxor a b) c = N.lxor (N.land a c) (N.land b c).
+Proof.
+  apply N.bits_inj. intros n. rewrite N.lxor_spec, !N.land_spec, N.lxor_spec.
+  destruct (N.testbit a n), (N.testbit b n), (N.testbit c n); reflexivity.
+Qed.
+
+Lemma q_upd_agree cm b : b < 256 ->
+  N.land (q_upd_table cm b) M24 = q_upd_bits (N.land cm M24) b.
+Proof.
+  intros Hb. unfold q_upd_table, q_upd_bits.
+  set (cs := N.land cm M24).
+  set (hi := N.land (N.shiftr cm 16) 255). set (lo := N.land cm 65535).
+  assert (Hhi : hi < 256) by (unfold hi; change 255 with (N.ones 8); apply (land_ones_lt _ 8)).
+  assert (Hlo : lo < 2 ^ 16) by (unfold lo; change 65535 with (N.ones 16); apply land_ones_lt).
+  assert (Hidx : N.lxor b hi < 256).
+  { change 256 with (2 ^ 8). apply lt_pow2_bits'. intros k Hk. rewrite N.lxor_spec.
+    rewrite (proj1 (lt_pow2_bits' b 8) Hb), (proj1 (lt_pow2_bits' hi 8) Hhi) by exact Hk. reflexivity. }
+  rewrite q_lookup_spec by exact Hidx.
+  assert (Hcs : cs = N.lxor (N.shiftl hi 16) lo).
+  { unfold cs, hi, lo, M24. apply N.bits_inj. intros n.
+    rewrite N.lxor_spec, !N.land_spec.
+    change 16777215 with (N.ones 24). change 65535 with (N.ones 16). change 255 with (N.ones 8).
+    destruct (N.ltb_spec n 16) as [Hn|Hn].
+    - rewrite N.shiftl_spec_low by exact Hn. rewrite !N.ones_spec_low by lia. rewrite xorb_false_l. reflexivity.
+    - rewrite N.shiftl_spec_high' by exact Hn. rewrite N.land_spec, N.shiftr_spec by lia.
+      rewrite (N.ones_spec_high 16) by lia. rewrite andb_false_r, xorb_false_r.
+      replace (n - 16 + 16) with n by lia.
+      destruct (N.ltb_spec n 24) as [Hn2|Hn2].
+      + rewrite !N.ones_spec_low by lia. reflexivity.
+      + rewrite !N.ones_spec_high by lia. reflexivity. }
+  assert (Hin : N.lxor cs (N.shiftl b 16) = N.lxor (N.shiftl (N.lxor b hi) 16) lo).
+  { rewrite Hcs, N.shiftl_lxor. rewrite (N.lxor_comm (N.shiftl b 16)).
+    rewrite !N.lxor_assoc. f_equal. apply N.lxor_comm. }
+  rewrite Hin, q_step8_split by exact Hlo.
+  assert (HT : q_step8 (N.shiftl (N.lxor b hi) 16) < 2 ^ 24).
+  { apply q_step8_lt. change (2 ^ 24) with (2 ^ 8 * 2 ^ 16). rewrite N.shiftl_mul_pow2.
+    apply N.mul_lt_mono_pos_r; [reflexivity|exact Hidx]. }
+  rewrite land_lxor_distr. rewrite (N.lxor_comm (q_step8 _)).
+  f_equal.
+  - unfold lo, M24. apply N.bits_inj. intros n. rewrite N.land_spec.
+    change 4294967296 with (2 ^ 32). rewrite <- N.land_ones, N.land_spec.
+    change 16777215 with (N.ones 24). change 65535 with (N.ones 16).
+    destruct (N.ltb_spec n 8) as [Hn|Hn].
+    + rewrite !N.shiftl_spec_low by exact Hn. reflexivity.
+    + rewrite !N.shiftl_spec_high' by exact Hn. rewrite N.land_spec.
+      destruct (N.ltb_spec n 24) as [Hn2|Hn2].
+      * rewrite !N.ones_spec_low by lia. rewrite !andb_true_r. reflexivity.
+      * rewrite (N.ones_spec_high 24) by lia. rewrite (N.ones_spec_high 16) by lia. rewrite !andb_false_r. reflexivity.
+  - unfold M24. change 16777215 with (N.ones 24). rewrite N.land_ones. apply N.mod_small. exact HT.
+Qed.
+
+Lemma crc24_fold_agree : forall l cm, Forall (fun b => b < 256) l ->
+  N.land (fold_left q_upd_table l cm) M24 = fold_left q_upd_bits l (N.land cm M24).
+Proof.
+  induction l as [|b l IH]; intros cm H; [reflexivity|].
+  inversion H as [|? ? Hb Hl]; subst. cbn [fold_left]. rewrite IH by exact Hl. rewrite q_upd_agree by exact Hb. reflexivity.
+Qed.
+
+(* CalculateCRC of the RTCM framer = CRC-24Q, on every byte string *)
+Theorem crc24_hash_eq_spec l : Forall (fun b => b < 256) l -> crc24_hash l = crc24q l.
+Proof.
+  intros H. unfold crc24_hash, crc24q. change RTCM_CRC_MASK with M24. rewrite crc24_fold_agree by exact H. reflexivity.
+Qed.
